@@ -84,6 +84,7 @@ def cases() -> Any:
         "requeue_first": st.sampled_from([False, True]),
         # save calls (by call order) the result backend fails; what is handed to the backend under an id is still that id's own result
         "fail_saves": st.sampled_from([[], [], [], [0], [0, 1], [1]]),
+        "ws_ids": st.sampled_from([False, False, False, True]),
         # messages delivered as ackable messages: acknowledge type, and how long the (async) acknowledgement takes
         "ack": st.one_of(st.none(), st.none(), st.fixed_dictionaries({"type": st.sampled_from(["when_received", "when_received", "when_executed", "when_saved"]),
                                                                        "lat": st.sampled_from([0, 0.05, 0.12, 0.3])})),
@@ -172,6 +173,9 @@ def run_case(c: Dict[str, Any]) -> Outcome:
     def tid_of(k: int) -> str:
         if dup(k):
             return "id0"
+        if c.get("ws_ids") and not c.get("same_id"):
+            # task ids that differ ONLY by surrounding whitespace (a custom id generator, ids read from a file): distinct ids all the same
+            return ["id0", "id0 ", " id0", "id0\n"][k % 4]
         return "id0" if c.get("same_id") and k == 1 else f"id{k}"
 
     async def main() -> None:
